@@ -165,6 +165,7 @@ FileAttrsToks(as, i, el, ch) ==
 
 FileToks(file, f, ch) ==
   LET el == <<"f", f>> IN
+  IF file.mod = <<>> THEN FileAttrsToks(file.fattrs, 1, el, ch) ELSE      \* file attributes only: no module, no definitions
   FileAttrsToks(file.fattrs, 1, el, ch)
   \o AttrsToks(file.mattrs, 1, el \o <<"m">>, <<>>, ch)
   \o <<T(W("module"), el \o <<"m">>, "first")>> \o ScopedToksE(file.mod, el \o <<"m", "id">>, "name", FALSE)
